@@ -358,3 +358,27 @@ Proof.
   destruct (nackwriter_filter (cache_holds c) cutoff nacks) as [|a l] eqn:E; [intros []|].
   intros Hin. apply Hsound. exact Hin.
 Qed.
+
+(* rtpUpTrack.GetPacket never buffers a number twice: the list handed to
+   nackWriter is duplicate-free (hypothesis NoDup of nackwriter_spec) *)
+Lemma buffer_nack_NoDup buffered s : NoDup buffered -> NoDup (buffer_nack buffered s).
+Proof.
+  intros Hnd. unfold buffer_nack. destruct (existsb (Z.eqb s) buffered) eqn:E; [exact Hnd|].
+  assert (Hnin : ~ In s buffered).
+  { intros Hin. assert (existsb (Z.eqb s) buffered = true).
+    { apply existsb_exists. exists s. split; [exact Hin|apply Z.eqb_refl]. }
+    congruence. }
+  clear E. induction Hnd as [|a l Hna Hnd IH]; cbn [app].
+  - constructor; [intros []|constructor].
+  - constructor.
+    + intros Hin. apply in_app_or in Hin. destruct Hin as [Hin|[<-|[]]]; [contradiction|].
+      apply Hnin. left; reflexivity.
+    + apply IH. intros Hin. apply Hnin. right; exact Hin.
+Qed.
+Lemma buffer_nacks_NoDup l : NoDup (fold_left buffer_nack l []).
+Proof.
+  assert (H : forall acc, NoDup acc -> NoDup (fold_left buffer_nack l acc)).
+  { induction l as [|s l IH]; intros acc Hacc; cbn [fold_left]; [exact Hacc|].
+    apply IH. apply buffer_nack_NoDup. exact Hacc. }
+  apply H. constructor.
+Qed.
